@@ -439,7 +439,15 @@ impl WorkStealingExecutor {
                     let start_time = Instant::now();
                     stats.active_tasks.fetch_add(1, Ordering::Relaxed);
 
-                    let _ = task.execute().await;
+                    // A panicking task must not take the worker down with it: the tasks still
+                    // queued behind it (and `active_tasks`) would be stranded for good.
+                    {
+                        use futures::FutureExt;
+                        use std::panic::AssertUnwindSafe;
+                        if let Ok(future) = std::panic::catch_unwind(AssertUnwindSafe(|| task.execute())) {
+                            let _ = AssertUnwindSafe(future).catch_unwind().await;
+                        }
+                    }
 
                     let execution_time = start_time.elapsed().as_micros() as usize;
                     stats
